@@ -348,6 +348,18 @@ class SourceFile:
                            (self.path, len(hits), selector))
         return hits[0]
 
+    def _siblings(self, it):
+        def walk(scope):
+            if it in scope:
+                return scope
+            for c in scope:
+                if c.children:
+                    r = walk(c.children)
+                    if r is not None:
+                        return r
+            return None
+        return walk(self.items) or []
+
     def _find_all(self, scope, parts):
         cands = [it for it in scope if self._matches(it, parts[0])]
         if len(parts) == 1:
@@ -365,6 +377,10 @@ class SourceFile:
         kind, rest = m.group(1), m.group(2)
         if kind != it.kind:
             return False
+        if rest.startswith('#'):
+            # nth item of that kind among its siblings (1-based), e.g. `use #2`
+            sibs = [x for x in self._siblings(it) if x.kind == kind]
+            return sibs.index(it) + 1 == int(rest[1:])
         if kind == 'impl':
             hdr = norm(self.msk[it.head_start:it.body_open])
             return impl_key(hdr) == norm(rest) or hdr == norm('impl ' + rest)
